@@ -46,6 +46,9 @@ func genTextCase(r *gen.R, so gen.StrOpt, o gen.Options) recCase {
 	if len(hostileTitleLevels) > 0 && r.P(8) {
 		c.lvl = gen.Pick(r, hostileTitleLevels)
 	}
+	if useUnregisteredLevels && r.P(5) {
+		c.lvl = gen.Pick(r, unregisteredLevels)
+	}
 	if c.lvl == slog.AlwaysLevel && strings.Trim(c.msg, "\n\r \t") == "" {
 		c.lvl = slog.InfoLevel
 	}
@@ -93,7 +96,11 @@ func renameGroupKeys(r *gen.R, v *gen.V) {
 	}
 }
 
+// useUnregisteredLevels: C05 judges the level name of unregistered severities structurally (see levelNameProblem)
+var useUnregisteredLevels bool
+
 func c05main(c *Ctx) {
+	useUnregisteredLevels = true
 	registerHostileTitles()
 	c.R.Max("levels_registered_under_titles_that_need_escaping", int64(len(hostileTitleLevels)))
 	log := mon.NewLog()
@@ -284,7 +291,16 @@ func c05check(payload []byte, cs recCase) (out []tv) {
 	if cs.name != "" {
 		expect("logger", quoted(cs.name, true))
 	}
-	expect("level", quoted(titleOf(cs.lvl), true))
+	if isUnregistered(cs.lvl) {
+		expect("level", func(p oracle.Pair) string {
+			if !p.Quoted {
+				return fmt.Sprintf("%s value is not quoted: %s", p.Key, clip(p.Raw, 60))
+			}
+			return levelNameProblem(p.Val, cs.lvl)
+		})
+	} else {
+		expect("level", quoted(titleOf(cs.lvl), true))
+	}
 	expect("msg", quoted(cs.msg, true))
 	if len(out) > 0 {
 		return
